@@ -328,6 +328,22 @@ func modeFallback(n int) {
 	planOf = func(ex int) (string, string) { return "tc", "ok" }
 	runWorkers(u5, 2, 1, 6*time.Second, 6*time.Second, false)
 	u5.Close()
+	// sixth phase: the server is reached over IPv6 ([::1]): both legs, truncated replies retried over TCP
+	if c, err := net.ListenUDP("udp", &net.UDPAddr{IP: net.ParseIP("::1")}); err == nil {
+		c.Close()
+		serverIP = "::1"
+		srv6 := newServer("f6", sc, true, true)
+		serverIP = "127.0.0.1"
+		defer srv6.close()
+		u6, err := upstream.NewUpstream("udp://"+srv6.addr, upstream.Opt{})
+		if err != nil {
+			panic(err)
+		}
+		planOf = plan
+		runWorkers(u6, 4, n/16+1, 300*time.Millisecond, 300*time.Millisecond, false)
+		time.Sleep(350 * time.Millisecond)
+		u6.Close()
+	}
 	planOf = nil
 	// the event filter stays on: hook events of worker goroutines that outlive the run must not reach this trace
 }
